@@ -98,6 +98,9 @@ func LoadEngine(repo string, contractFiles map[string]string, specDir string) (*
 		return nil, err
 	}
 	eng.cs = cs
+	for _, n := range cs.Sealed {
+		eng.sealed[n] = true
+	}
 	if err := eng.loadSpecs(specDir); err != nil {
 		return nil, err
 	}
